@@ -41,9 +41,11 @@ Inductive prim : st → st → Prop :=
 | p_seen s p b : prim s (set_T (fun t => tb_markSeen t p b) s)
 | p_link s p : tb_byPath (T s) p = None → prim s (set_T (fun t => tb_addLink t p) s)
 | p_user s p : U p → prim s (set_T (fun t => tb_addUserWatch t p) s)
-| p_out s s' : T s' = T s → K s' = K s → gone s' = gone s → prim s s'      (* events, errors, closed, held *)
+| p_out s s' : T s' = T s → K s' = K s → gone s' = gone s → (closed s = true → closed s' = true) →
+               prim s s'                                                   (* events, errors, held; closed only gets set *)
 | p_dflags s p fl t' : is_Some (tb_byPath (T s) p) → tb_updateDirFlags (T s) p fl = Some t' → prim s (set_T (fun _ => t') s)
 | p_watch s name link isdir fl k1 fd k2 :
+    closed s = false →                                                     (* addWatch refuses once the watcher is closed *)
     tb_byPath (T s) name = None → sys_open (K s) name = inr (k1, fd) → sys_register k1 fd fl = Some k2 →
     prim s (set_T (fun t => tb_add t name link fd isdir) (set_K (fun _ => k2) s))
 | p_rereg s fd fl k1 : sys_register (K s) fd fl = Some k1 → prim s (set_K (fun _ => k1) s)
@@ -67,7 +69,7 @@ Proof. intros H s s' Hs. induction Hs; eauto. Qed.
 
 (* ------------------------------------------------------------------ part A: the functions are compositions of primitives *)
 
-Ltac out := apply steps_one, p_out; reflexivity.
+Ltac out := apply steps_one, p_out; try reflexivity; try (simpl; intros; congruence); auto.
 
 Lemma sendEvent_steps s e : steps s (sendEvent s e).1.
 Proof. unfold sendEvent. repeat case_match; simpl; try apply steps_refl; out. Qed.
@@ -133,7 +135,7 @@ End addwatch.
 Lemma addWatch_steps fuel : ∀ s name flags ld, steps s (addWatch fuel s name flags ld).1.
 Proof.
   induction fuel as [|fuel IH]; intros s name flags ld; simpl; [apply steps_refl|].
-  destruct (closed s); simpl; [apply steps_refl|].
+  destruct (closed s) eqn:Ecl; simpl; [apply steps_refl|].
   destruct (tb_byPath (T s) (clean name)) as [[fd info]|] eqn:Eb.
   - (* already watching *)
     unfold aw_finish.
@@ -144,16 +146,16 @@ Proof.
     + apply steps_one, p_regfail. unfold sys_register in Er. destruct (k_led (K s) !! fd); [discriminate|reflexivity].
   - destruct (v_lstat (fs_of s) (clean name)) as [e|k]; simpl; [apply steps_refl|].
     destruct (is_fifo k); simpl; [apply steps_refl|].
-    assert (Hopen : ∀ s0 nm lk k0, tb_byPath (T s0) nm = None →
+    assert (Hopen : ∀ s0 nm lk k0, closed s0 = false → tb_byPath (T s0) nm = None →
               steps s0 (match sys_open (K s0) nm with
                         | inl e => (s0, RErr (EOs e))
                         | inr (k1, fd) => aw_finish (addWatch fuel) (set_K (λ _ : kernel, k1) s0) nm fd lk (is_dir k0) 0 false flags
                         end).1).
-    { intros s0 nm lk k0 Hb. destruct (sys_open (K s0) nm) as [e|[k1 fd]] eqn:Eo; [apply steps_refl|].
+    { intros s0 nm lk k0 Hc0 Hb. destruct (sys_open (K s0) nm) as [e|[k1 fd]] eqn:Eo; [apply steps_refl|].
       unfold aw_finish.
       destruct (sys_open_register _ _ _ _ flags Eo) as [k2 Er].
       change (K (set_K (λ _ : kernel, k1) s0)) with k1. rewrite Er.
-      eapply steps_trans; [apply steps_one, (p_watch s0 nm lk (is_dir k0) flags k1 fd k2 Hb Eo Er)|].
+      eapply steps_trans; [apply steps_one, (p_watch s0 nm lk (is_dir k0) flags k1 fd k2 Hc0 Hb Eo Er)|].
       apply (aw_tail_steps (addWatch fuel) IH _ nm lk (is_dir k0) 0 false flags).
       unfold tb_byPath, tb_add. simpl. rewrite !lookup_insert. simpl. rewrite ?lookup_insert. eauto. }
     destruct (negb ld && is_link k); simpl.
@@ -161,8 +163,8 @@ Proof.
       set (l' := if is_abs l then l else pjoin (dir (clean name)) l).
       destruct (tb_byPath (T s) l') as [?|] eqn:El; simpl.
       * apply steps_one, p_link, Eb.
-      * destruct (v_lstat (fs_of s) l') as [e|k']; simpl; [apply steps_refl|]. apply Hopen, El.
-    + apply Hopen, Eb.
+      * destruct (v_lstat (fs_of s) l') as [e|k']; simpl; [apply steps_refl|]. apply Hopen; [exact Ecl|exact El].
+    + apply Hopen; [exact Ecl|exact Eb].
 Qed.
 
 Definition user_name (c : cfg) (p : string) : string := if fx_user_clean c then clean p else p.
@@ -203,7 +205,7 @@ Proof. induction l as [|p r IH]; intros s; [apply steps_refl|]. cbn [fold_left].
 Lemma api_close_steps c s : steps s (api_close c s).
 Proof.
   unfold api_close. destruct (closed s); [apply steps_refl|].
-  eapply steps_trans; [apply steps_one, (p_out s (set_closed true s)); reflexivity|].
+  eapply steps_trans; [apply steps_one, (p_out s (set_closed true s)); try reflexivity; auto|].
   eapply steps_trans.
   - instantiate (1 := if fx_close c then _ else _). destruct (fx_close c); [apply fold_remove_steps|apply steps_refl].
   - apply steps_one. apply p_kern; reflexivity.
@@ -305,10 +307,10 @@ Proof.
   - pose proof (api_remove_steps c s p) as H. destruct (api_remove c s p) as [s1 r]. simpl in *.
     eapply steps_trans; [exact H|apply settle_steps].
   - apply steps_refl.
-  - eapply steps_trans; [apply steps_one, (p_out s (set_held false s)); reflexivity|].
+  - eapply steps_trans; [apply steps_one, (p_out s (set_held false s)); try reflexivity; auto|].
     eapply steps_trans; [apply settle_steps|]. eapply steps_trans; [apply api_close_steps|apply settle_steps].
   - out.
-  - eapply steps_trans; [apply steps_one, (p_out s (set_held false s)); reflexivity|apply settle_steps].
+  - eapply steps_trans; [apply steps_one, (p_out s (set_held false s)); try reflexivity; auto|apply settle_steps].
 Qed.
 
 Lemma run_steps c h : (∀ p, In (SAdd p) h → U (user_name c p)) → ∀ s, steps s (run c h s).
@@ -567,8 +569,9 @@ Lemma prim_dead U fd s s' : fd_dead fd s → prim U s s' → fd_dead fd s'.
 Proof.
   intros [Hl Hn] H. destruct H; unfold fd_dead in *; simpl; auto.
   - rewrite H0, Hl. auto.
-  - unfold sys_open in H0. destruct (v_open (k_fs (K s)) name); [discriminate|]. injection H0 as <- <-.
-    unfold sys_register in H1. simpl in H1. rewrite lookup_insert in H1. injection H1 as <-. simpl.
+  - match goal with Ho : sys_open _ _ = _, Hr : sys_register _ _ _ = _ |- _ =>
+      unfold sys_open in Ho; destruct (v_open (k_fs (K s)) name); [discriminate|]; injection Ho as <- <-;
+      unfold sys_register in Hr; simpl in Hr; rewrite lookup_insert in Hr; injection Hr as <- end. simpl.
     split; [rewrite lookup_insert_ne by lia; exact Hl|lia].
   - unfold sys_register in H. destruct (k_led (K s) !! fd0); [|discriminate]. injection H as <-. simpl. auto.
   - split; [|exact Hn]. destruct (decide (fd0 = fd)) as [->|Hd]; [apply lookup_delete|rewrite lookup_delete_ne by done; exact Hl].
@@ -709,125 +712,223 @@ Theorem ledger_is_dom_wd c h fd :
   is_Some (k_led (K (run c h st_init)) !! fd) ↔ is_Some (t_wd (T (run c h st_init)) !! fd).
 Proof. apply (inv_led _ (kq_inv_run c h)). Qed.
 
-(* ------------------------------------------------------------------ refutations on the tree as it is (cfg_repo) *)
+(* ------------------------------------------------------------------ C17: Close releases everything (repaired Close, 833aa17) *)
 
-Definition fails (cl : string) (c : cfg) (h : list step) : bool := clause_fails cl (spec_of_model c h).
-Ltac vm := vm_compute; repeat split; try reflexivity; try (let HH := fresh in intros HH; discriminate HH); eauto.
+Definition names_clean (s : st) : Prop := ∀ fd w, t_wd (T s) !! fd = Some w → clean (w_name w) = w_name w.
 
-(* F3: Close leaks every watch descriptor *)
-Definition w_close : list step := [SFs (OCreate "f"); SAdd "f"; SClose].
-Theorem close_releases_all_refuted :
-  ∃ h, let s := run cfg_repo h st_init in gone s = true ∧ ledger_list s = [(1, "f")] ∧ infra s = (false, false, false)
-       ∧ fails "close-releases-all" cfg_repo h = true.
-Proof. exists w_close. vm. Qed.
-(* … and the repaired Close does not, on the same history *)
-Example close_releases_all_fixed_witness :
-  let s := run cfg_fixed w_close st_init in gone s = true ∧ ledger_list s = [] ∧ sizes s = (0, 0, 0, 0, 0) ∧ infra s = (false, false, false) ∧ spec_of_model cfg_fixed w_close = [].
-Proof. vm. Qed.
+(* the name under which a descriptor is filed never changes while it lives *)
+Definition fd_named (fd : N) (nm : string) (s : st) : Prop :=
+  fd < k_next (K s) ∧ ∀ w, t_wd (T s) !! fd = Some w → w_name w = nm.
 
-(* all_removed_empty is false: unclean spelling, FIFO, symlink whose target is watched, renamed directory, FIFO entry *)
-Definition w_unclean : list step := [SFs (OMkdir "d"); SAdd "./d"; SRemove "d"].
-Definition w_fifo : list step := [SFs (OMkfifo "p"); SAdd "p"; SRemove "p"].
-Definition w_link_target : list step := [SFs (OCreate "f"); SFs (OSymlink "f" "l"); SAdd "f"; SAdd "l"; SRemove "l"; SRemove "f"].
-Definition w_dir_renamed : list step := [SFs (OMkdir "d"); SFs (OCreate "d/a"); SAdd "d"; SFs (ORename "d" "e")].
-Definition w_fifo_entry_left : list step := [SFs (OMkdir "d"); SAdd "d"; SFs (OMkfifo "d/p"); SRemove "d"].
 
-Theorem all_removed_empty_refuted :
-  (∃ h, let s := run cfg_repo h st_init in api_list s = ["./d"] ∧ sizes s = (0, 0, 0, 0, 1) ∧ fails "removed-not-listed" cfg_repo h = true)
-  ∧ (∃ h, let s := run cfg_repo h st_init in api_list s = ["p"] ∧ sizes s = (0, 0, 0, 0, 1) ∧ fails "all-removed-empty" cfg_repo h = true)
-  ∧ (∃ h, let s := run cfg_repo h st_init in api_list s = ["l"] ∧ sizes s = (0, 1, 0, 1, 1) ∧ t_path (T s) !! "l" = Some 0 ∧ fails "remove-of-added-fails" cfg_repo h = true)
-  ∧ (∃ h, let s := run cfg_repo h st_init in api_list s = [] ∧ ledger_list s = [(2, "d/a")] ∧ sizes s = (1, 1, 1, 1, 0) ∧ fails "all-removed-empty" cfg_repo h = true)
-  ∧ (∃ h, let s := run cfg_repo h st_init in api_list s = [] ∧ ledger_list s = [] ∧ sizes s = (0, 0, 0, 1, 0) ∧ fails "all-removed-empty" cfg_repo h = true).
+Lemma prim_named U fd nm s s' : KqInv s → fd_named fd nm s → prim U s s' → fd_named fd nm s'.
 Proof.
-  split; [exists w_unclean; vm|].
-  split; [exists w_fifo; vm|].
-  split; [exists w_link_target; vm|].
-  split; [exists w_dir_renamed; vm|].
-  exists w_fifo_entry_left. vm.
-Qed.
-(* the two repairs modelled by flags remove the first two *)
-Example all_removed_empty_fixed_witness : spec_of_model cfg_fixed w_unclean = [] ∧ spec_of_model cfg_fixed w_fifo = [].
-Proof. vm. Qed.
-
-(* watch_end_closes_fd needs its hypotheses: a watch added through a symlink survives the deletion of its target,
-   and the entries of a renamed directory keep their descriptors *)
-Definition w_link_deleted : list step := [SFs (OCreate "f"); SFs (OSymlink "f" "l"); SAdd "l"; SFs (OUnlink "f")].
-Theorem watch_end_closes_fd_refuted :
-  (∃ h, let s := run cfg_repo h st_init in ledger_list s = [(1, "f")] ∧ fails "deleted-file-descriptor-open" cfg_repo h = true)
-  ∧ (∃ h, let s := run cfg_repo h st_init in ledger_list s = [(2, "d/a")] ∧ api_list s = [] ∧ fails "all-removed-empty" cfg_repo h = true).
-Proof.
-  split; [exists w_link_deleted|exists w_dir_renamed]; vm.
+  intros I [Hn Hw] H. destruct H; unfold fd_named in *; simpl; auto.
+  - match goal with HT : T _ = T _, HK : K _ = K _ |- _ => rewrite HT, HK end. auto.
+  - match goal with Hb : is_Some (tb_byPath _ _) |- _ => destruct Hb as [[f0 w0] Hb]; destruct (byPath_some _ _ _ _ I Hb) as (Hp & Hw0 & Hn0 & Hz) end.
+    match goal with Hu : tb_updateDirFlags _ _ _ = Some _ |- _ => unfold tb_updateDirFlags in Hu; rewrite Hp in Hu; injection Hu as <- end. simpl.
+    split; [exact Hn|]. intros w. destruct (decide (f0 = fd)) as [->|Hd].
+    + rewrite lookup_insert. intros [= <-]. simpl. rewrite Hw0. simpl. auto.
+    + rewrite lookup_insert_ne by done. auto.
+  - match goal with Ho : sys_open _ _ = _, Hr : sys_register _ _ _ = _ |- _ =>
+      unfold sys_open in Ho; destruct (v_open (k_fs (K s)) name); [discriminate|]; injection Ho as <- <-;
+      unfold sys_register in Hr; simpl in Hr; rewrite lookup_insert in Hr; injection Hr as <- end. simpl.
+    split; [lia|]. intros w. rewrite lookup_insert_ne by lia. auto.
+  - match goal with Hr : sys_register _ _ _ = _ |- _ => unfold sys_register in Hr; destruct (k_led (K s) !! fd0); [|discriminate]; injection Hr as <- end. simpl. auto.
+  - match goal with He : sys_evdelete _ _ = _ |- _ => unfold sys_evdelete in He; destruct (k_regs (K s) !! fd0); [|discriminate]; injection He as <- end. simpl.
+    split; [exact Hn|]. intros w0. destruct (decide (fd0 = fd)) as [->|Hd]; [rewrite lookup_delete; discriminate|rewrite lookup_delete_ne by done; auto].
+  - match goal with Hx : k_next _ = k_next _ |- _ => rewrite Hx end. auto.
 Qed.
 
-(* ------------------------------------------------------------------ C18 *)
-
-(* names: an event carries the link name when the watch has one, else the watch's own (cleaned) name *)
-Theorem names_user_spelling name link mask :
-  e_name (newEvent name link mask) = if String.eqb link "" then name else link.
-Proof. reflexivity. Qed.
-
-(* Create is only ever sent for a name that is not marked seen, and a successful internalWatch marks what it returns *)
-Theorem create_only_if_unseen s p k :
-  tb_seenBefore (T s) p = true →
-  (sendCreateIfNew s p k) = (let '(s1, r) := internalWatch aw_entry s p k in
-                             match r with RErr e => (s1, Some e) | ROk p' => (set_T (λ t, tb_markSeen t p' true) s1, None) end).
-Proof. intros H. unfold sendCreateIfNew. rewrite H. reflexivity. Qed.
-
-Theorem create_marks_returned_name s p k s' :
-  sendCreateIfNew s p k = (s', None) → closed s = false →
-  ∃ p', p' ∈ t_seen (T s').
+Lemma steps_named U fd nm s s' : steps U s s' → KqInv s → fd_named fd nm s → fd_named fd nm s'.
 Proof.
-  unfold sendCreateIfNew, sendEvent. intros H C. rewrite C in H. simpl in H.
-  destruct (tb_seenBefore (T s) p); simpl in H.
-  - destruct (internalWatch aw_entry s p k) as [s1 [p'|e]]; [|discriminate]. injection H as <-. exists p'. simpl. set_solver.
-  - destruct (internalWatch aw_entry _ p k) as [s1 [p'|e]]; [|discriminate]. injection H as <-. exists p'. simpl. set_solver.
+  intros H. induction H as [|s1 s2 s3 Hp Hr IH]; [auto|]. intros I Hq.
+  apply IH; [eapply prim_inv; eauto|eapply prim_named; eauto].
 Qed.
 
-(* on the tree as it is the history-level statements fail.  Witnesses (each evaluated through the specification predicates): *)
-Definition w_fifo_entry : list step := [SFs (OMkdir "d"); SAdd "d"; SFs (OMkfifo "d/p"); SFs (OCreate "d/x")].
-Definition w_fifo_pre : list step := [SFs (OMkdir "d"); SFs (OMkfifo "d/p"); SAdd "d"; SFs (OCreate "d/x")].
-Definition w_link_entry : list step :=
-  [SFs (OMkdir "d"); SFs (OCreate "d/f"); SFs (OSymlink "f" "d/l"); SAdd "d"; SFs (OUnlink "d/l"); SFs (OCreate "d/l")].
-Definition w_dir_removed : list step :=
-  [SFs (OMkdir "d"); SFs (OCreate "d/f"); SFs (OSymlink "f" "d/l"); SAdd "d"; SFs (OUnlink "d/l"); SFs (OUnlink "d/f"); SFs (ORmdir "d")].
-Definition w_failed_add : list step := [SFs (OMkdir "d"); SFs (OSymlink "nowhere" "d/z"); SAdd "d"; SFs (OCreate "d/a")].
-Definition w_dangling : list step :=
-  [SFs (OMkdir "d"); SAdd "d"; SHold; SFs (OSymlink "nowhere" "d/a"); SFs (OCreate "d/b"); SRelease; SFs (OCreate "d/c")].
+(* once the watcher is closed no descriptor is opened any more *)
+Lemma prim_closed U s s' : prim U s s' → closed s = true → closed s' = true ∧ k_next (K s') = k_next (K s).
+Proof.
+  intros H Hc. destruct H; simpl; auto; try congruence.
+  - match goal with HK : K _ = K _ |- _ => rewrite HK end. auto.
+  - match goal with Hr : sys_register _ _ _ = _ |- _ => unfold sys_register in Hr; destruct (k_led (K s) !! fd); [|discriminate]; injection Hr as <- end. auto.
+  - match goal with He : sys_evdelete _ _ = _ |- _ => unfold sys_evdelete in He; destruct (k_regs (K s) !! fd); [|discriminate]; injection He as <- end. auto.
+Qed.
 
-Definition creates (n : string) (s : st) : nat := length (filter (fun e => String.eqb (e_name e) n && has (e_op e) Create) (evs s)).
+Lemma steps_closed U s s' : steps U s s' → closed s = true → closed s' = true ∧ k_next (K s') = k_next (K s).
+Proof.
+  intros H. induction H as [|x y z Hp _ IH]; [auto|]. intros Hc.
+  destruct (prim_closed _ _ _ Hp Hc) as [A B]. destruct (IH A) as [C D]. split; [exact C|congruence].
+Qed.
 
-Theorem create_once_refuted :
-  (∃ h, creates "d/p" (run cfg_repo h st_init) = 2%nat ∧ fails "create-once" cfg_repo h = true)
-  ∧ (∃ h, creates "d/a" (run cfg_repo h st_init) = 2%nat ∧ creates "d/b" (run cfg_repo h st_init) = 0%nat
-          ∧ fails "create-once" cfg_repo h = true ∧ fails "create-missed" cfg_repo h = true).
-Proof. split; [exists w_fifo_entry|exists w_dangling]; vm. Qed.
+Lemma remove_core_gone fuel : ∀ s name uw, gone (remove_core fuel s name uw).1 = gone s.
+Proof.
+  induction fuel as [|fuel IH]; intros s name uw; [reflexivity|]. cbn [remove_core].
+  destruct (tb_byPath (T s) (clean name)) as [[fd w]|]; [|reflexivity].
+  destruct (sys_evdelete (K s) fd) as [k1|]; [|reflexivity].
+  destruct (tb_remove (T s) fd (clean name)) as [t1 isd].
+  destruct (uw && isd); [|reflexivity]. cbn [fst].
+  set (s1 := set_T (λ _ : tables, t1) (set_K (λ _ : kernel, sys_close k1 fd) s)).
+  change (gone s) with (gone s1). generalize s1.
+  induction (tb_watchesInDir t1 (clean name)) as [|ch r IHr]; intros s0; [reflexivity|].
+  cbn [fold_left]. rewrite IHr. apply IH.
+Qed.
 
-Theorem preexisting_silent_refuted :
-  ∃ h, creates "d/p" (run cfg_repo h st_init) = 1%nat ∧ fails "preexisting-silent" cfg_repo h = true.
-Proof. exists w_fifo_pre. vm. Qed.
+Lemma fold_remove_gone l : ∀ s, gone (fold_left (λ s p, (remove_core (rm_fuel s) s p true).1) l s) = gone s.
+Proof. induction l as [|p r IH]; intros s; cbn [fold_left]; [reflexivity|]. rewrite IH. apply remove_core_gone. Qed.
 
-Theorem recreate_refuted :
-  ∃ h, evs (run cfg_repo h st_init) = [] ∧ fails "recreate" cfg_repo h = true ∧ fails "remove-missed" cfg_repo h = true.
-Proof. exists w_link_entry. vm. Qed.
+Lemma in_ins_str_rev x y l : x = y ∨ In x l → In x (ins_str y l).
+Proof.
+  induction l as [|z r IH]; simpl.
+  - intros [->|[]]. auto.
+  - destruct (String.leb y z); simpl; intros [->|[->|H]]; auto.
+Qed.
+Lemma in_sort_str_rev x l : In x l → In x (sort_str l).
+Proof. induction l as [|y r IH]; simpl; [tauto|]. intros [->|H]; apply in_ins_str_rev; auto. Qed.
 
-(* removing the symlink entry d/l is not reported when it happens; its Remove arrives only when the TARGET d/f is deleted *)
-Theorem dir_removed_refuted :
-  ∃ h, rev (evs (run cfg_repo h st_init)) = [ {| e_name := "d/l"; e_op := Remove |}; {| e_name := "d/f"; e_op := Remove |}; {| e_name := "d"; e_op := Remove |} ]
-       ∧ fails "remove-missed" cfg_repo h = true.
-Proof. exists w_dir_removed. vm. Qed.
+Lemma led_none_of_wd s fd : KqInv s → t_wd (T s) !! fd = None → k_led (K s) !! fd = None.
+Proof.
+  intros I Hw. destruct (k_led (K s) !! fd) eqn:El; [|done].
+  assert (is_Some (t_wd (T s) !! fd)) as [? ?] by (apply (inv_led _ I); eauto). congruence.
+Qed.
+Lemma wd_none_of_led s fd : KqInv s → k_led (K s) !! fd = None → t_wd (T s) !! fd = None.
+Proof.
+  intros I Hl. destruct (t_wd (T s) !! fd) eqn:E; [|done].
+  assert (is_Some (k_led (K s) !! fd)) as [? ?] by (apply (inv_led _ I); eauto). congruence.
+Qed.
 
-Theorem names_user_spelling_refuted :
-  ∃ h, api_list (run cfg_repo h st_init) = [] ∧ fails "names-user-spelling" cfg_repo h = true.
-Proof. exists w_failed_add. vm. Qed.
+(* removing every listed path removes every watch whose name is its own cleaned form *)
+Lemma fold_remove_all fd nm : clean nm = nm → ∀ L s,
+  KqInv s → gone s = false → fd_named fd nm s → (fd_dead fd s ∨ In nm L) →
+  fd_dead fd (fold_left (λ s p, (remove_core (rm_fuel s) s p true).1) L s).
+Proof.
+  intros Hc. induction L as [|p r IH]; intros s I G Q H; cbn [fold_left].
+  - destruct H as [H|[]]. exact H.
+  - set (s' := (remove_core (rm_fuel s) s p true).1).
+    assert (Hs : steps (λ _, True) s s') by apply remove_core_steps.
+    assert (I' : KqInv s') by (eapply steps_inv; eauto).
+    assert (G' : gone s' = false) by (subst s'; rewrite remove_core_gone; exact G).
+    assert (Q' : fd_named fd nm s') by (eapply steps_named; eauto).
+    apply IH; auto.
+    destruct H as [H|[->|H]].
+    + left. eapply steps_dead; eauto.
+    + left. destruct (t_wd (T s) !! fd) as [w|] eqn:Ew.
+      * pose proof (proj2 Q _ Ew) as Hn.
+        assert (Hb : tb_byPath (T s) (clean nm) = Some (fd, w)).
+        { rewrite Hc. unfold tb_byPath. rewrite <- Hn, (inv_wd_path _ I _ _ Ew). simpl. rewrite Ew. reflexivity. }
+        unfold s', rm_fuel. exact (proj1 (remove_core_closes _ s nm true fd w I G Hb)).
+      * eapply steps_dead; [exact Hs|]. split; [apply led_none_of_wd; auto|exact (proj1 Q)].
+    + destruct (t_wd (T s') !! fd) as [w|] eqn:Ew; [right; exact H|].
+      left. split; [apply led_none_of_wd; auto|exact (proj1 Q')].
+Qed.
 
-(* and where none of the defect ingredients occurs the model meets every clause: bursts, name re-use, overwrite by
-   rename, pre-existing entries, removal of the directory (a bounded statement, by evaluation) *)
-Definition h_plain : list step :=
-  [SFs (OMkdir "d"); SFs (OCreate "d/pre"); SAdd "d"; SFs (OCreate "d/a"); SFs (OWrite "d/a"); SFs (OChmod "d/a"); SFs (ORename "d/a" "d/b");
-   SFs (OUnlink "d/b"); SFs (OCreate "d/b"); SFs (OMkdir "d/s"); SFs (ORmdir "d/s"); SList;
-   SHold; SFs (OCreate "d/x"); SFs (OCreate "d/y"); SFs (OCreate "d/z"); SFs (OUnlink "d/y"); SRelease;
-   SHold; SFs (OUnlink "d/x"); SFs (OCreate "d/x"); SRelease;
-   SFs (OCreate "d/o"); SFs (ORename "d/o" "d/x");
-   SFs (OUnlink "d/pre"); SFs (OUnlink "d/b"); SFs (OUnlink "d/x"); SFs (OUnlink "d/z"); SFs (ORmdir "d"); SList].
-Example plain_history_meets_spec : spec_of_model cfg_repo h_plain = [] ∧ length (evs (run cfg_repo h_plain st_init)) = 22%nat.
-Proof. vm. Qed.
+(* Close as repaired (833aa17): when it returns no watch, no watch descriptor, no registration and no byDir bucket is
+   left — in every state satisfying the invariant, whatever the filesystem, for every configuration with fx_close,
+   provided the watch names are clean.  That proviso is necessary: close_needs_clean_names_refuted
+   (KNOWN_FINDINGS key symlink-added: a watch added through a symlink is filed under the raw link target). *)
+Theorem close_empties c s :
+  fx_close c = true → KqInv s → closed s = false → gone s = false → names_clean s →
+  let s' := api_close c s in
+  closed s' = true ∧ t_wd (T s') = ∅ ∧ k_led (K s') = ∅ ∧ k_regs (K s') = ∅ ∧ t_bydir (T s') = ∅ ∧ k_pw (K s') = false.
+Proof.
+  intros Hf I C G Hnc. unfold api_close. rewrite C, Hf.
+  set (s1 := set_closed true s).
+  set (s2 := fold_left (λ s p, (remove_core (rm_fuel s) s p true).1) (tb_listPaths (T s1) false) s1).
+  assert (I1 : KqInv s1) by (eapply prim_out; eauto).
+  assert (Hs : steps (λ _, True) s1 s2) by apply fold_remove_steps.
+  assert (I2 : KqInv s2) by (eapply steps_inv; eauto).
+  assert (G2 : gone s2 = false) by (subst s2; rewrite fold_remove_gone; exact G).
+  destruct (steps_closed _ _ _ Hs eq_refl) as [C2 N2].
+  assert (Hwd : t_wd (T s2) = ∅).
+  { apply map_empty. intros fd. destruct (t_wd (T s) !! fd) as [w|] eqn:Ew.
+    - apply (wd_none_of_led _ _ I2). apply (fold_remove_all fd (w_name w) (Hnc _ _ Ew)); auto.
+      + split; [apply (inv_next _ I), (inv_led _ I); eauto|]. simpl. intros w0 Hw0. congruence.
+      + right. unfold tb_listPaths. apply in_sort_str_rev. apply elem_of_list_In.
+        apply elem_of_list_fmap. exists (w_name w, fd). split; [reflexivity|].
+        apply elem_of_map_to_list. exact (inv_wd_path _ I _ _ Ew).
+    - destruct (decide (fd < k_next (K s))) as [Hlt|Hge].
+      + apply (wd_none_of_led _ _ I2). eapply steps_dead; [exact Hs|]. split; [apply led_none_of_wd; auto|exact Hlt].
+      + destruct (t_wd (T s2) !! fd) eqn:E2; [|done]. exfalso.
+        assert (fd < k_next (K s2)) by (apply (inv_next _ I2), (inv_led _ I2); eauto).
+        rewrite N2 in H. simpl in H. contradiction. }
+  destruct (all_removed_empty_partial s2 I2 Hwd) as (Hl & Hr & Hb & _).
+  simpl. repeat split; auto.
+Qed.
+
+(* … and nothing is opened or registered afterwards, whatever else happens *)
+Definition released (s : st) : Prop := closed s = true ∧ k_led (K s) = ∅ ∧ k_regs (K s) = ∅.
+
+Lemma prim_released U s s' : released s → prim U s s' → released s'.
+Proof.
+  intros (C & L & R) H. destruct H; unfold released; simpl; auto; try congruence.
+  - match goal with HK : K _ = K _ |- _ => rewrite HK end. auto.
+  - match goal with Hr : sys_register _ _ _ = _ |- _ => unfold sys_register in Hr; rewrite L, lookup_empty in Hr; discriminate end.
+  - rewrite L, R, !delete_empty. auto.
+  - match goal with He : sys_evdelete _ _ = _ |- _ => unfold sys_evdelete in He; rewrite R, lookup_empty in He; discriminate end.
+  - match goal with HA : k_led _ = k_led _, HB : k_regs _ = k_regs _ |- _ => rewrite HA, HB end. auto.
+Qed.
+
+Lemma steps_released U s s' : steps U s s' → released s → released s'.
+Proof. apply steps_ind_inv. intros; eapply prim_released; eauto. Qed.
+
+(* the state in which the Close of a SClose step is executed: withheld records are handled first *)
+Definition before_close (c : cfg) (s : st) : st := settle c (set_held false s).
+
+(* C17 close_releases_all, every configuration with the repaired Close, every history before and after the Close *)
+Theorem close_releases_all c h1 h2 :
+  fx_close c = true →
+  let s0 := before_close c (run c h1 st_init) in
+  closed s0 = false → gone s0 = false → names_clean s0 →
+  let s := run c (h1 ++ SClose :: h2) st_init in
+  k_led (K s) = ∅ ∧ k_regs (K s) = ∅ ∧ closed s = true.
+Proof.
+  intros Hf s0 C G Hnc s.
+  assert (I0 : KqInv s0).
+  { eapply (steps_inv (λ _, True)); [|apply (kq_inv_run c h1)].
+    eapply steps_trans; [apply steps_one, (p_out _ _ (set_held false (run c h1 st_init))); try reflexivity; auto|apply settle_steps; auto]. }
+  destruct (close_empties c s0 Hf I0 C G Hnc) as (C1 & _ & L1 & R1 & _ & W1).
+  assert (Hrel : released (api_close c s0)) by (split; [|split]; assumption).
+  assert (Hsteps : steps (λ _, True) (api_close c s0) s).
+  { subst s. unfold run. rewrite fold_left_app. cbn [fold_left]. fold (run c h1 st_init).
+    change (fold_left (λ s x, (do_step c s x).1) h2 (do_step c (run c h1 st_init) SClose).1) with (run c h2 (do_step c (run c h1 st_init) SClose).1).
+    eapply steps_trans; [|apply run_steps; auto]. cbn [do_step fst]. apply settle_steps; auto. }
+  destruct (steps_released _ _ _ Hsteps Hrel) as (A & B & D). repeat split; auto.
+Qed.
+
+(* ------------------------------------------------------------------ C17: Remove unlists (repaired addUserWatch, c3f1f06) *)
+
+Lemma prim_not_user (U : string → Prop) q s s' : ¬ U q → q ∉ t_user (T s) → prim U s s' → q ∉ t_user (T s').
+Proof.
+  intros HU Hq H. destruct H; simpl; auto.
+  - intros Hin. apply elem_of_union in Hin as [Hin|Hin]; [apply elem_of_singleton in Hin as ->; contradiction|contradiction].
+  - match goal with HT : T _ = T _ |- _ => rewrite HT end. auto.
+  - match goal with Hu : tb_updateDirFlags _ _ _ = Some _ |- _ => unfold tb_updateDirFlags in Hu; destruct (t_path (T s) !! p); [|discriminate]; injection Hu as <- end. auto.
+  - set_solver.
+Qed.
+Lemma steps_not_user (U : string → Prop) q s s' : ¬ U q → steps U s s' → q ∉ t_user (T s) → q ∉ t_user (T s').
+Proof. intros HU H. induction H; [auto|]. intros Hq. apply IHrtc. eapply prim_not_user; eauto. Qed.
+
+(* a successful Remove takes the cleaned path out of the user table, hence out of WatchList: with addUserWatch storing the
+   cleaned name (watchlist_user_only: every listed path is [clean p] for an added p) "Add ./d; Remove d" now unlists d *)
+Theorem remove_unlists c s name fd w :
+  KqInv s → closed s = false → gone s = false → tb_byPath (T s) (clean name) = Some (fd, w) →
+  clean name ∉ t_user (T (api_remove c s name).1) ∧ ¬ In (clean name) (api_list (api_remove c s name).1).
+Proof.
+  intros I C G Hb.
+  assert (Hnot : clean name ∉ t_user (T (api_remove c s name).1)).
+  { unfold api_remove. rewrite C. unfold rm_fuel. cbn [remove_core]. rewrite Hb.
+    destruct (sys_evdelete (K s) fd) as [k1|] eqn:Ee.
+    - destruct (tb_remove (T s) fd (clean name)) as [t1 isd] eqn:Et.
+      assert (Hq1 : clean name ∉ t_user t1) by (unfold tb_remove in Et; injection Et as <- _; simpl; set_solver).
+      set (s1 := set_T (λ _ : tables, t1) (set_K (λ _ : kernel, sys_close k1 fd) s)).
+      destruct (true && isd); cbn [fst]; [|exact Hq1].
+      assert (Hs : steps (λ _, False) s1 (fold_left (λ s0 child, (remove_core (size (t_wd (T s))) s0 child true).1) (tb_watchesInDir t1 (clean name)) s1)).
+      { generalize s1. induction (tb_watchesInDir t1 (clean name)) as [|ch r IHr]; intros s0; cbn [fold_left]; [apply steps_refl|].
+        eapply steps_trans; [apply remove_core_steps|apply IHr]. }
+      eapply (steps_not_user (λ _, False)); [tauto|exact Hs|exact Hq1].
+    - exfalso. destruct (byPath_some _ _ _ _ I Hb) as (_ & Hw & _ & _).
+      unfold sys_evdelete in Ee. destruct (k_regs (K s) !! fd) eqn:Er; [discriminate|].
+      assert (is_Some (k_regs (K s) !! fd)) as [? ?] by (apply (inv_regs _ I G); eauto). congruence. }
+  split; [exact Hnot|]. unfold api_list. destruct (closed (api_remove c s name).1); [unfold not; simpl; intros H; exact H|].
+  intros Hin. apply in_sort_str in Hin. apply elem_of_list_In, elem_of_elements in Hin. contradiction.
+Qed.
